@@ -24,3 +24,24 @@ package bag
 //@   ensures assoc-is-object: old(is(obj, slip.List) && len(as(obj, slip.List)) > 0 && is(as(obj, slip.List)[0], slip.List) && len(as(as(obj, slip.List)[0], slip.List)) == 2 && is(as(as(obj, slip.List)[0], slip.List)[1], slip.Tail)) ==> is(v, map_string_any)
 //@   ensures list-is-array: old(is(obj, slip.List) && len(as(obj, slip.List)) > 0 && !is(as(obj, slip.List)[0], slip.List)) ==> (is(v, slice_any) && len(as(v, slice_any)) == len(as(obj, slip.List)))
 //@   ensures nil-is-null: obj == nil ==> v == nil
+
+// C18: set, get and has address the document of the bag they are given, with
+// the path that was passed, and set stores the converted value (not the Lisp
+// object); an empty path means the whole document.
+//@ func bag.setBag
+//@   property C18
+//@   on-call MustParseString path-text: $arg0 == as(path, slip.String)
+//@   on-call ObjectToBag converts-the-value: $arg1 == value
+//@   on-call MustSet into-this-document: $arg0 == obj.Any && $arg1 == v
+//@   on-store Any whole-document-replaced: x == nil && now == v
+//@ func bag.getBag
+//@   property C18
+//@   on-call MustParseString path-text: $arg0 == as(path, slip.String)
+//@   on-call First from-this-document: $arg0 == obj.Any
+//@   on-call SimpleObject converts-what-was-found: $arg0 == value
+//@   on-store Any new-bag-holds-what-was-found: now == value
+//@ func bag.hasBag
+//@   property C18
+//@   on-call MustParseString path-text: $arg0 == as(path, slip.String)
+//@   on-call Has in-this-document: $arg0 == obj.Any
+//@   ensures empty-path-is-the-document: path == nil ==> result0 != nil
